@@ -118,6 +118,10 @@ pub struct RefTrace {
     pub err_vars: BTreeMap<usize, BTreeMap<String, i64>>,
     /// unified indices of virtual signals that were part of the configured signal list
     pub list_virtuals: Vec<usize>,
+    /// indices of statement-level error items the history continues past. No property says the
+    /// iterator must go on after such an item, so an iteration that simply ends there is
+    /// accepted; if it does go on, what it yields must be the continuation prescribed here.
+    pub soft_errors: Vec<usize>,
 }
 
 #[derive(Clone, Debug, Serialize)]
@@ -146,6 +150,12 @@ pub struct RefOpts {
     /// does nothing. Used to decide, before the real crate is run, whether a program that uses
     /// random finishes within the budgets; the resulting history is never compared.
     pub fake_draws: bool,
+    /// Statement-level errors (a `let`, a row's entries, a loop/repeat bound could not be
+    /// evaluated): the statement is abandoned - it binds nothing, yields nothing, the loop is
+    /// skipped - and the history goes on with the next statement. A failing `while` condition
+    /// still ends the history (the crate would re-evaluate it on the next call; not prescribed).
+    /// What is prescribed after such an item is conditional: see `RefTrace::soft_errors`.
+    pub continue_after_statement_errors: bool,
 }
 
 impl Default for RefOpts {
@@ -156,6 +166,7 @@ impl Default for RefOpts {
             draws: None,
             continue_after_row_errors: true,
             fake_draws: false,
+            continue_after_statement_errors: true,
         }
     }
 }
@@ -200,6 +211,7 @@ struct Interp<'a> {
     loop_just_ended: bool,
     in_control: bool,
     err_vars: BTreeMap<usize, BTreeMap<String, i64>>,
+    soft_errors: Vec<usize>,
 }
 
 pub fn wrapping_eval_bin(op: BinOp, l: i64, r: i64) -> Result<i64, RefErr> {
@@ -406,7 +418,10 @@ impl<'a> Interp<'a> {
     }
 
     fn emit_source_row(&mut self, row_id: usize, es: &[Entry]) -> Result<(), Stop> {
-        let cells = self.eval_entries(es).map_err(Stop::Err)?;
+        let cells = match self.eval_entries(es) {
+            Ok(c) => c,
+            Err(e) => return self.stmt_error(e),
+        };
         let vars = self.flat_vars();
         let depth = self.frames.len() - 1;
         let xs: Vec<usize> = (0..cells.len())
@@ -621,13 +636,35 @@ impl<'a> Interp<'a> {
         Ok(())
     }
 
+    /// A statement could not be evaluated: error item, statement abandoned, history goes on.
+    fn stmt_error(&mut self, e: RefErr) -> Result<(), Stop> {
+        let internal = matches!(&e, RefErr::NotImplemented(m) if m.starts_with("draw-accounting") || m.starts_with("random without"));
+        if !self.opts.continue_after_statement_errors || internal || self.opts.draws.is_some() || self.opts.fake_draws {
+            return Err(Stop::Err(e));
+        }
+        if e.is_hazard() {
+            self.stats.hazards_reached.push(format!("{e:?}"));
+        }
+        let k = self.items.len();
+        self.err_vars.insert(k, self.flat_vars());
+        self.soft_errors.push(k);
+        self.items.push(RefItem::Err(e));
+        Ok(())
+    }
+
     fn exec(&mut self, items: &[Item]) -> Result<(), Stop> {
         for it in items {
             self.step()?;
             match it {
                 Item::Blank | Item::Comment(_) | Item::Declare(..) => {}
                 Item::Let(n, e) => {
-                    let v = self.eval(e, None).map_err(Stop::Err)?;
+                    let v = match self.eval(e, None) {
+                        Ok(v) => v,
+                        Err(e) => {
+                            self.stmt_error(e)?;
+                            continue;
+                        }
+                    };
                     if self.frames.len() > 1 {
                         self.stats.lets_in_loop += 1;
                     }
@@ -654,7 +691,13 @@ impl<'a> Interp<'a> {
                     self.in_control = true;
                     let n = self.eval(b, None);
                     self.in_control = false;
-                    let n = n.map_err(Stop::Err)?;
+                    let n = match n {
+                        Ok(n) => n,
+                        Err(e) => {
+                            self.stmt_error(e)?;
+                            continue;
+                        }
+                    };
                     self.enter_loop(n);
                     self.frames.push(vec![]);
                     for c in 0..n.max(0) {
@@ -669,7 +712,13 @@ impl<'a> Interp<'a> {
                     self.in_control = true;
                     let n = self.eval(b, None);
                     self.in_control = false;
-                    let n = n.map_err(Stop::Err)?;
+                    let n = match n {
+                        Ok(n) => n,
+                        Err(e) => {
+                            self.stmt_error(e)?;
+                            continue;
+                        }
+                    };
                     self.enter_loop(n);
                     self.frames.push(vec![]);
                     for c in 0..n.max(0) {
@@ -807,6 +856,7 @@ pub fn run(p: &Program, sigs: &[Sig], script: &Script, opts: RefOpts) -> RefOutc
         loop_just_ended: false,
         in_control: false,
         err_vars: BTreeMap::new(),
+        soft_errors: vec![],
     };
     let _ = it.header;
     it.stats.wide_signals = sigs.iter().filter(|s| s.bits >= 63).count();
@@ -876,6 +926,7 @@ pub fn run(p: &Program, sigs: &[Sig], script: &Script, opts: RefOpts) -> RefOutc
         draws_left,
         n_cfg,
         err_vars: it.err_vars,
+        soft_errors: it.soft_errors,
         list_virtuals: sigs.iter().enumerate().filter(|(_, s)| matches!(s.kind, SigKind::Virtual(_))).map(|(i, _)| i).collect(),
     }))
 }
